@@ -11,7 +11,7 @@ from sqlalchemy.dialects.mssql import BIT, DATETIME2, TINYINT
 
 from pydiverse.common import Bool, Decimal, Float, Int, String, UInt8
 from pydiverse.transform._internal.backend import sql
-from pydiverse.transform._internal.backend.sql import SqlImpl
+from pydiverse.transform._internal.backend.sql import SqlImpl, like_escape, like_operand
 from pydiverse.transform._internal.backend.targets import Target
 from pydiverse.transform._internal.errors import NotSupportedError
 from pydiverse.transform._internal.ops import ops
@@ -283,19 +283,19 @@ with MsSqlImpl.impl_store.impl_manager as impl:
     @impl(ops.str_starts_with)
     def _str_starts_with(x, y):
         x = x.collate(MsSqlImpl.default_collation())
-        return x.startswith(y, autoescape=True)
+        return x.startswith(like_operand(y), **like_escape(y))
 
     @impl(ops.str_ends_with)
     def _str_ends_with(x, y):
         x = x.collate(MsSqlImpl.default_collation())
-        return x.endswith(y, autoescape=True)
+        return x.endswith(like_operand(y), **like_escape(y))
 
     @impl(ops.str_contains)
     def _str_contains(x, pattern, allow_regex, true_if_regex_unsupported):
         if true_if_regex_unsupported:
             return sqa.literal(True, literal_execute=True)
         x = x.collate(MsSqlImpl.default_collation())
-        return x.contains(pattern, autoescape=True)
+        return x.contains(like_operand(pattern), **like_escape(pattern))
 
     @impl(ops.str_slice)
     def _str_slice(x, offset, length):
